@@ -45,6 +45,10 @@ More information:
 {'01': '38425876095074'}
 >>> validate('(17)181119(01)38425876095074(37)1')
 '013842587609507417181119371'
+>>> validate('')
+Traceback (most recent call last):
+    ...
+InvalidFormat: ...
 """
 
 import datetime
@@ -276,7 +280,10 @@ def validate(number, separator=''):
     provided number and for encoding the returned number.
     """
     try:
-        return encode(info(number, separator), separator)
+        data = info(number, separator)
+        if not data:
+            raise InvalidFormat()
+        return encode(data, separator)
     except ValidationError:
         raise
     except Exception:  # noqa: B902
